@@ -9,6 +9,7 @@ import Driver.ProducerIO
 import Driver.GroupIO
 import Driver.ConsumeIO
 import Driver.ScramIO
+import Driver.CodecIO
 /-!
 Line-protocol driver: one operation per line on stdin, one canonical line per operation on stdout.
 The first token selects the model; unknown or malformed lines print `bad-op` (never a default).
@@ -32,6 +33,7 @@ def dispatch (toks : List String) : Option String :=
   | "c03" :: rest => ConsumeIO.handle rest
   | "c13" :: rest => ConsumeIO.handle13 rest
   | "c18" :: rest => ScramIO.handle rest
+  | "c09" :: rest => CodecIO.handle rest
   | _ => none
 
 partial def loop (h : IO.FS.Stream) (out : IO.FS.Stream) : IO Unit := do
